@@ -547,7 +547,7 @@ func vpRunGrid(t *vcTrial, flavour int) {
 	t.P("variant", "synthetic-grid")
 	t.P("flavour", flavour)
 	states := []string{"idle", "pending", "eof", "pending+eof", "reset", "writefull"}
-	cells, hupCells := 0, 0
+	cells, hupCells, batchCells, unstable := 0, 0, 0, 0
 	for _, st := range states {
 		for flags := 1; flags < 32; flags++ {
 			if t.Violated() {
@@ -570,19 +570,47 @@ func vpRunGrid(t *vcTrial, flavour int) {
 				ev |= syscall.EPOLLERR
 			}
 			cells++
-			if vpGridCell(t, flavour, st, ev) {
+			hup, alone := vpGridCell(t, flavour, st, ev, 0)
+			if hup {
 				hupCells++
+			}
+			if t.Violated() {
+				return
+			}
+			// "any number of descriptors per batch": the same descriptor, state and event
+			// preceded in the batch by 1..3 busy readable descriptors must be dispatched to
+			// the same outcome. A difference counts only when it reproduces (both outcomes
+			// stable over a second pair of runs), so kernel timing cannot raise it.
+			npre := 1 + cells%3
+			_, batched := vpGridCell(t, flavour, st, ev, npre)
+			if t.Violated() {
+				return
+			}
+			batchCells++
+			if alone != batched {
+				_, alone2 := vpGridCell(t, flavour, st, ev, 0)
+				_, batched2 := vpGridCell(t, flavour, st, ev, npre)
+				if t.Violated() {
+					return
+				}
+				if alone2 == alone && batched2 == batched {
+					t.Violate("C11", "batch_dependence", "flavour %d, state %s, events 0x%x: dispatched alone the outcome is {%s}, dispatched as event %d of a batch behind %d readable descriptors it is {%s} (reproduced twice)", flavour, st, ev, alone, npre+1, npre, batched)
+					return
+				}
+				unstable++
 			}
 		}
 	}
 	t.Stat("grid_cells", cells)
+	t.Stat("grid_cells_in_batches", batchCells)
+	t.Stat("grid_cells_unstable", unstable)
 	t.Stat("grid_cells_with_hup", hupCells)
 	t.Nontrivial = true
 	t.Sig = fmt.Sprintf("grid|flavour=%d", flavour)
 	t.P("exhaustive", true)
 }
 
-func vpGridCell(t *vcTrial, flavour int, state string, ev uint32) (hup bool) {
+func vpGridCell(t *vcTrial, flavour int, state string, ev uint32, npre int) (hup bool, outcome string) {
 	network := "unix"
 	if state == "reset" {
 		network = "tcp"
@@ -608,6 +636,37 @@ func vpGridCell(t *vcTrial, flavour int, state string, ev uint32) (hup bool) {
 		syscall.Close(pl.fd)
 	}()
 	pl.Reset(8, barriercap)
+	// decoys: connection-style descriptors that have fresh input in every batch
+	type decoy struct {
+		d    *vpDesc
+		sent uint64
+	}
+	var pre []*decoy
+	for i := 0; i < npre; i++ {
+		dfd, dpeer, err := vpPair("unix")
+		if err != nil {
+			t.Inconclusive("pair: %v", err)
+			return
+		}
+		defer syscall.Close(dfd)
+		defer syscall.Close(dpeer)
+		dd := &vpDesc{id: 100 + i, fd: dfd, peer: dpeer, flavour: 1, seed: t.R.next(), outSeed: t.R.next()}
+		dd.install(pl)
+		if err := dd.op.Control(PollReadable); err != nil {
+			t.Inconclusive("register: %v", err)
+			return
+		}
+		pre = append(pre, &decoy{d: dd})
+	}
+	feed := func() {
+		for _, q := range pre {
+			b := make([]byte, 700)
+			vfFill(b, q.d.seed, q.sent)
+			if m, _ := syscall.Write(q.d.peer, b); m > 0 {
+				q.sent += uint64(m)
+			}
+		}
+	}
 	d := &vpDesc{id: 0, fd: fd, peer: peer, flavour: flavour, seed: t.R.next(), outSeed: t.R.next()}
 	d.install(pl)
 	if err := d.op.Control(PollReadable); err != nil {
@@ -654,12 +713,20 @@ func vpGridCell(t *vcTrial, flavour int, state string, ev uint32) (hup bool) {
 	}
 	outReq := d.outLeft
 	desc := fmt.Sprintf("flavour %d, state %s, events 0x%x", flavour, state, ev)
+	if npre > 0 {
+		desc += fmt.Sprintf(", event %d of its batch", npre+1)
+	}
 	dispatch := func() (pan interface{}) {
 		defer func() { pan = recover() }()
-		var e [1]epollevent
-		e[0].events = ev
-		pl.setOperator(unsafe.Pointer(&e[0].data), d.op)
-		pl.Handler(e[:])
+		feed()
+		e := make([]epollevent, npre+1)
+		for i, q := range pre {
+			e[i].events = syscall.EPOLLIN
+			pl.setOperator(unsafe.Pointer(&e[i].data), q.d.op)
+		}
+		e[npre].events = ev
+		pl.setOperator(unsafe.Pointer(&e[npre].data), d.op)
+		pl.Handler(e)
 		return nil
 	}
 	// level-triggered: the same event would be reported again while the state persists and the
@@ -687,6 +754,18 @@ func vpGridCell(t *vcTrial, flavour int, state string, ev uint32) (hup bool) {
 	time.Sleep(50 * time.Microsecond)
 	hups := atomic.LoadInt32(&d.hups)
 	hup = hups > 0
+	outcome = fmt.Sprintf("hang-ups %d, deregistered %v, input bytes %d, output bytes %d", hups, atomic.LoadInt32(&d.op.detached) > 0, atomic.LoadUint64(&d.got), atomic.LoadUint64(&d.outAcked))
+	for _, q := range pre {
+		if b, _ := q.d.bad.Load().(string); b != "" {
+			t.Violate("C11", "input_order", "%s (batch neighbour): %s", desc, b)
+			return
+		}
+		if got := atomic.LoadUint64(&q.d.got); got != q.sent || atomic.LoadInt32(&q.d.hups) != 0 {
+			t.Violate("C11", "batch_neighbour", "%s: an open readable descriptor earlier in the same batch got %d of %d bytes and %d hang-ups; events %v", desc, got, q.sent, atomic.LoadInt32(&q.d.hups), q.d.history())
+			return
+		}
+		defer q.d.op.Control(PollDetach)
+	}
 	// ---- safety rules that hold for every cell
 	if b, _ := d.bad.Load().(string); b != "" {
 		t.Violate("C11", "input_order", "%s: %s; events %v", desc, b, d.history())
@@ -772,5 +851,5 @@ func vpGridCell(t *vcTrial, flavour int, state string, ev uint32) (hup bool) {
 	if atomic.LoadInt32(&d.dead) == 0 {
 		d.op.Control(PollDetach)
 	}
-	return hup
+	return hup, outcome
 }
